@@ -191,10 +191,10 @@ func registerResolver() {
 		ID: "C14", Pkg: "argmapper",
 		Quick: []Shard{c14(1, 5, 2, 0), c14(2, 0, 1, 1), c14(0, 1, 2, 1), c14(5, 2, 2, 0), c14(0, 0, 2, 2), c14(3, 5, 1, 0), c14(4, 5, 1, 0), c14(5, 3, 1, 1), c14(5, 4, 1, 0), c14(0, 0, 1, 3), c14(5, 5, 0, 3),
 			c14s(0), c14s(1), c14s(2), c14s(3), c14s(4)},
-		Thorough: []Shard{c14(1, 5, 3, 0), c14(2, 0, 2, 1), c14(0, 1, 3, 1), c14(5, 2, 3, 0), c14(0, 0, 3, 2), c14(3, 5, 1, 0), c14(4, 5, 1, 0), c14(5, 3, 1, 1), c14(5, 4, 1, 0), c14(1, 2, 2, 1), c14(2, 1, 2, 0),
+		Thorough: []Shard{c14(1, 5, 2, 0), c14(2, 0, 2, 1), c14(0, 1, 2, 1), c14(5, 2, 2, 0), c14(0, 0, 3, 2), c14(3, 5, 1, 0), c14(4, 5, 1, 0), c14(5, 3, 1, 1), c14(5, 4, 1, 0), c14(1, 2, 1, 1), c14(2, 1, 1, 0), c14(0, 0, 2, 3), c14(0, 5, 3, 1), c14(5, 0, 3, 3),
 			c14s(0), c14s(1), c14s(2), c14s(3), c14s(4)},
 		Covers:   []string{"C14.sets-checked", "C14.rejection-checked", "C14.pointer-struct-form", "C14.static-checked"},
-		Bounds:   []string{"field lists of <=2 (quick) / 3 (thorough) fields; per field the tag is drawn symbolically from the grammar [name in {none,x,Yy,ZED}][,typeOnly][,subtype=s][,unknown option] or empty tag, type in {P0,P1,I}; forms positional/struct/*struct/**struct/mixed/empty for inputs and results; error absent/final/first", "a static catalogue of real Go signatures (unexported fields, marker not in first position, plain structs, non-function values)"},
+		Bounds:   []string{"field lists of <=2 fields (3 positional entries); per field the tag is drawn symbolically from the grammar [name in {none,x,Yy,ZED}][,typeOnly][,subtype=s][,unknown option] or empty tag, type in {P0,P1,I}; forms positional/struct/*struct/**struct/mixed/empty for inputs and results; error absent/final/first", "a static catalogue of real Go signatures (unexported fields, marker not in first position, plain structs, non-function values)"},
 		Outside:  []string{"more than 3 fields", "lists that repeat a name, a type-only type or a (type,subtype) pair (well-formedness)", "tags outside the grammar"},
 		Assume:   []string{"reflect.StructOf/FuncOf/MakeFunc are modelled over go/types"},
 		Anchored: []string{"github.com/hashicorp/go-argmapper.newValueSetFromStruct", "github.com/hashicorp/go-argmapper.newValueSet", "github.com/hashicorp/go-argmapper.NewFunc", "github.com/hashicorp/go-argmapper.isStruct"},
